@@ -1344,36 +1344,128 @@ TranscodeNumber(
 
 
 
-static const char* const    thePrintfStrings[] =
+// The maximum number of characters in the positional decimal numeral
+// of a double: a sign, then either up to 309 integer digits, or "0."
+// followed by up to 323 zeros and 17 significant digits.
+const size_t    MAX_DOUBLE_CHARACTERS = 360;
+
+
+
+// Write the shortest positional decimal numeral (no exponent, no
+// superfluous zeros) that converts back to theValue into theBuffer,
+// which must have room for MAX_DOUBLE_CHARACTERS + 1 characters.
+// theValue must be finite and non-zero.  Returns the number of
+// characters written.
+static int
+DoubleToDecimalChars(
+            double  theValue,
+            char*   theBuffer)
 {
-    "%.10f",
-    "%.11f",
-    "%.12f",
-    "%.13f",
-    "%.14f",
-    "%.15f",
-    "%.16f",
-    "%.17f",
-    "%.18f",
-    "%.19f",
-    "%.20f",
-    "%.21f",
-    "%.22f",
-    "%.23f",
-    "%.24f",
-    "%.25f",
-    "%.26f",
-    "%.27f",
-    "%.28f",
-    "%.29f",
-    "%.30f",
-    "%.31f",
-    "%.32f",
-    "%.33f",
-    "%.34f",
-    "%.35f",
-    0
-};
+    using std::sprintf;
+    using std::strtod;
+    using std::isdigit;
+
+    // 17 significant digits always identify a double...
+    const int   theMaxPrecision = 16;
+
+    char    theScientific[64];
+
+    for (int thePrecision = 0; thePrecision <= theMaxPrecision; ++thePrecision)
+    {
+        sprintf(theScientific, "%.*e", thePrecision, theValue);
+
+        if (strtod(theScientific, 0) == theValue)
+        {
+            break;
+        }
+    }
+
+    // Collect the significant digits and the exponent.  Whatever
+    // separates the first digit from the rest (the decimal point
+    // of the current locale) is skipped.
+    char    theDigits[32];
+    int     theDigitCount = 0;
+
+    const char*     theCurrent = theScientific;
+
+    const bool  fNegative = *theCurrent == '-';
+
+    if (fNegative == true)
+    {
+        ++theCurrent;
+    }
+
+    while(*theCurrent != 'e' && *theCurrent != 'E' && *theCurrent != '\0')
+    {
+        if (isdigit(static_cast<unsigned char>(*theCurrent)) &&
+            theDigitCount < int(sizeof(theDigits)))
+        {
+            theDigits[theDigitCount++] = *theCurrent;
+        }
+
+        ++theCurrent;
+    }
+
+    int     theExponent = 0;
+
+    if (*theCurrent != '\0')
+    {
+        theExponent = int(std::strtol(theCurrent + 1, 0, 10));
+    }
+
+    // No trailing zeros...
+    while(theDigitCount > 1 && theDigits[theDigitCount - 1] == '0')
+    {
+        --theDigitCount;
+    }
+
+    char*   theOutput = theBuffer;
+
+    if (fNegative == true)
+    {
+        *theOutput++ = '-';
+    }
+
+    if (theExponent < 0)
+    {
+        *theOutput++ = '0';
+        *theOutput++ = '.';
+
+        for (int i = -1; i > theExponent; --i)
+        {
+            *theOutput++ = '0';
+        }
+
+        for (int i = 0; i < theDigitCount; ++i)
+        {
+            *theOutput++ = theDigits[i];
+        }
+    }
+    else
+    {
+        // The first theExponent + 1 digits are the integer part...
+        for (int i = 0; i <= theExponent; ++i)
+        {
+            *theOutput++ = i < theDigitCount ? theDigits[i] : '0';
+        }
+
+        if (theDigitCount > theExponent + 1)
+        {
+            *theOutput++ = '.';
+
+            for (int i = theExponent + 1; i < theDigitCount; ++i)
+            {
+                *theOutput++ = theDigits[i];
+            }
+        }
+    }
+
+    *theOutput = '\0';
+
+    assert(size_t(theOutput - theBuffer) <= MAX_DOUBLE_CHARACTERS);
+
+    return int(theOutput - theBuffer);
+}
 
 
 
@@ -1433,77 +1525,19 @@ DOMStringHelper::NumberToCharacters(
             theZeroString,
             sizeof(theZeroString) / sizeof(theZeroString[0]) - 1);
     }
-    else if (static_cast<XMLInt64>(theValue) == theValue)
+    else if (theValue >= -9223372036854775808.0 &&
+             theValue < 9223372036854775808.0 &&
+             static_cast<XMLInt64>(theValue) == theValue)
     {
         NumberToCharacters(static_cast<XMLInt64>(theValue), formatterListener, function);
     }
     else
     {
-        char            theBuffer[MAX_PRINTF_DIGITS + 1];
+        char            theBuffer[MAX_DOUBLE_CHARACTERS + 1];
 
-        using std::sprintf;
-        using std::atof;
-        using std::isdigit;
+        const int   theCharsWritten = DoubleToDecimalChars(theValue, theBuffer);
 
-        const char* const *     thePrintfString = thePrintfStrings;
-
-        int     theCharsWritten = 0;
-
-        do
-        {
-            theCharsWritten = sprintf(theBuffer, *thePrintfString, theValue);
-            assert(theCharsWritten != 0);
-
-            ++thePrintfString;
-        }
-        while(atof(theBuffer) != theValue && *thePrintfString != 0);
-
-        // First, cleanup the output to conform to the XPath standard,
-        // which says no trailing '0's for the decimal portion.
-        // So start with the last digit, and search until we find
-        // the last correct character for the output.
-        // Also, according to the XPath standard, any values without
-        // a fractional part are printed as integers.  There's always
-        // a decimal point, so we have to strip stuff away...
-
-        // Now, move back while there are zeros...
-        while(theBuffer[--theCharsWritten] == '0')
-        {
-        }
-
-        int     theCurrentIndex = theCharsWritten;
-
-        // If a decimal point stopped the loop, then
-        // we don't want to preserve it.  Otherwise,
-        // another digit stopped the loop, so we must
-        // preserve it.
-        if(isdigit(theBuffer[theCharsWritten]))
-        {
-            ++theCharsWritten;
-        }
-
-        // Some other character other than '.' can be the
-        // separator.  This can happen if the locale is
-        // not the "C" locale, etc.  If that's the case,
-        // replace it with '.'.
-        while(theCurrentIndex > 0)
-        {
-            if (isdigit(theBuffer[theCurrentIndex]))
-            {
-                --theCurrentIndex;
-            }
-            else
-            {
-                if (theBuffer[theCurrentIndex] != '.')
-                {
-                    theBuffer[theCurrentIndex] = '.';
-                }
-
-                break;
-            }
-        }
-
-        XalanDOMChar    theResult[MAX_PRINTF_DIGITS + 1];
+        XalanDOMChar    theResult[MAX_DOUBLE_CHARACTERS + 1];
 
         TranscodeNumber(
                 theBuffer,
@@ -1733,75 +1767,17 @@ NumberToDOMString(
             theZeroString,
             sizeof(theZeroString) / sizeof(theZeroString[0]) - 1);
     }
-    else if (static_cast<XMLInt64>(theValue) == theValue)
+    else if (theValue >= -9223372036854775808.0 &&
+             theValue < 9223372036854775808.0 &&
+             static_cast<XMLInt64>(theValue) == theValue)
     {
         NumberToDOMString(static_cast<XMLInt64>(theValue), theResult);
     }
     else
     {
-        char            theBuffer[MAX_PRINTF_DIGITS + 1];
+        char            theBuffer[MAX_DOUBLE_CHARACTERS + 1];
 
-        using std::sprintf;
-        using std::atof;
-        using std::isdigit;
-
-        const char* const *     thePrintfString = thePrintfStrings;
-
-        int     theCharsWritten = 0;
-
-        do
-        {
-            theCharsWritten = sprintf(theBuffer, *thePrintfString, theValue);
-            assert(theCharsWritten != 0);
-
-            ++thePrintfString;
-        }
-        while(atof(theBuffer) != theValue && *thePrintfString != 0);
-
-        // First, cleanup the output to conform to the XPath standard,
-        // which says no trailing '0's for the decimal portion.
-        // So start with the last digit, and search until we find
-        // the last correct character for the output.
-        // Also, according to the XPath standard, any values without
-        // a fractional part are printed as integers.  There's always
-        // a decimal point, so we have to strip stuff away...
-
-        // Now, move back while there are zeros...
-        while(theBuffer[--theCharsWritten] == '0')
-        {
-        }
-
-        int     theCurrentIndex = theCharsWritten;
-
-        // If a decimal point stopped the loop, then
-        // we don't want to preserve it.  Otherwise,
-        // another digit stopped the loop, so we must
-        // preserve it.
-        if(isdigit(theBuffer[theCharsWritten]))
-        {
-            ++theCharsWritten;
-        }
-
-        // Some other character other than '.' can be the
-        // separator.  This can happen if the locale is
-        // not the "C" locale, etc.  If that's the case,
-        // replace it with '.'.
-        while(theCurrentIndex > 0)
-        {
-            if (isdigit(theBuffer[theCurrentIndex]))
-            {
-                --theCurrentIndex;
-            }
-            else
-            {
-                if (theBuffer[theCurrentIndex] != '.')
-                {
-                    theBuffer[theCurrentIndex] = '.';
-                }
-
-                break;
-            }
-        }
+        const int   theCharsWritten = DoubleToDecimalChars(theValue, theBuffer);
 
         theResult.reserve(theResult.length() + theCharsWritten);
 
